@@ -160,6 +160,14 @@ def io_cost_tables(ctx):
         n_conv = len(re.findall(r"%[a-z]*d", a[1]))
         fl = Flow(P, rd, cg=cg)
         tests = [k for b in rd.cfg for j in range(len(b["succ"])) for k, p in fl.edge_facts(b["id"], j) if re.match(r"^\((ret != %d|%d != ret|%d == ret|ret == %d)\)$" % ((n_conv,) * 4), k)]
+        if not tests:
+            # the count as a named constant: `ret != kIoStatFields`, folded by the front end
+            rn_ = locals_receiving(rd, r"sscanf\(")
+            for x, nn in enumerate(rd.nodes):
+                if nn["k"] == "bin" and nn.get("op") in ("!=", "==") and rd.pos_of(x) is not None:
+                    lt, rt = rd.text(nn["l"]), rd.text(nn["r"])
+                    if (lt in rn_ and const_int(rd, nn["r"]) == n_conv) or (rt in rn_ and const_int(rd, nn["l"]) == n_conv):
+                        tests.append(rd.text(x))
         ctx.check(bool(tests), "iostat:all-conversions-required", "guard-shape", rd.loc(i), "a line counts only if all %d conversions succeeded" % n_conv,
                   "the scanf result is not compared with the number of conversions (%d)" % n_conv)
     gc = ctx.fn1("Oomd::CgroupContext::getIoCostCumulative")
